@@ -11,7 +11,7 @@ let cfg_of_overrides (ovs : string list) : PoolM.cfg =
     | ["old"; v] -> { c with PoolM.c_unpark_old = nat_of_int (int_of_string v) }
     | ["dec"; "relaxed"] -> { c with PoolM.c_dec = ORelaxed }
     | ["load"; "relaxed"] -> { c with PoolM.c_load = ORelaxed }
-    | [""] -> c
+    | ["nopub"] | [""] -> c
     | _ -> failwith ("bad override " ^ ov)) PoolM.code_cfg ovs
 
 let key (s : PoolM.state) : string = Marshal.to_string s [Marshal.No_sharing]
@@ -21,6 +21,7 @@ let pool_bfs line =
     | Some i -> String.sub line 0 i, toks (String.trim (String.sub line (i + 1) (String.length line - i - 1)))
     | None -> line, [] in
   let cfg = cfg_of_overrides ovs in
+  let check_pub = not (List.mem "nopub" ovs) in
   let scr = List.map (fun t -> nat_of_int (int_of_string t)) (List.filter (fun t -> t <> "") (toks scr_s)) in
   let s0 = PoolM.init scr in
   let seen : (string, unit) Hashtbl.t = Hashtbl.create 100000 in
@@ -41,7 +42,7 @@ let pool_bfs line =
       incr finals;
       List.iteri (fun i n ->
         if not (PoolM.once_per_index s (nat_of_int (i + 1)) n) then fail "once_per_index";
-        if not (PoolM.published s (nat_of_int (i + 1)) n) then fail "published";
+        if check_pub && not (PoolM.published s (nat_of_int (i + 1)) n) then fail "published";
         if not (PoolM.results_indexed s (nat_of_int (i + 1)) n) then fail "results_indexed") scr
     end else if en = [] then fail "deadlock";
     let labels = PoolM.ESpurious :: List.concat_map (fun l ->
